@@ -34,6 +34,7 @@ AUTOLINKS = ['http://example.com/a?b=c', 'https://x.y/z_w', 'mailto:a@b.c', 'irc
 EMAILS = ['a@b.c', 'foo.bar@example.com', 'x+y@z-w.org']
 RAW_INLINE = ['<span class="a">', '</span>', '<br/>', '<!-- c -->', '<b>', '<a href="x" title=\'y\'>', '<?php x ?>', '<![CDATA[ x ]]>',
               '<i data-x=1>', '<!DOCTYPE x>']
+RAW_INLINE_ML = ['<span\nclass="b">', '<!-- two\nlines -->', '<a href="x"\ntitle="y">']     # a tag or comment may run over lines
 ESCAPABLE = list('*_`[]()#<>\\!&"\'-+.{}=$%^,/:;?@')      # no '|' (table cells re-escape pipes), no '~' (finding F42)
 TITLE_ESCAPABLE = ESCAPABLE + ['~']
 ENTITIES = [('&amp;', '&'), ('&lt;', '<'), ('&gt;', '>'), ('&quot;', '"'), ('&copy;', '©'), ('&#35;', '#'), ('&#x22;', '"'),
@@ -135,7 +136,7 @@ def gen_inlines(c, depth=0, allow_link=True, allow_break=True, n=None, allow_htm
         elif k < 82 and allow_link:
             it = N('autolink', url=t.choice(EMAILS) if t.chance(60) else t.choice(AUTOLINKS))
         elif k < 86 and allow_html and not c.reflow:
-            it = N('html', raw=t.choice(RAW_INLINE))
+            it = N('html', raw=t.choice(RAW_INLINE + RAW_INLINE_ML if (allow_break and not c.canonical) else RAW_INLINE))
         elif k < 89 and depth < 1:
             it = N('strike', children=gen_inlines(c, depth + 1, False, False, 1 + t.below(2), False, plain=t.chance(128)))
         elif k < 93:
@@ -223,6 +224,8 @@ def gen_link(c, depth, image):
     children = gen_inlines(c, depth + 1, False, False, 1 + t.below(2), False)
     if image and t.chance(128):
         children = [gen_word(c)]
+    if not c.canonical and not c.reflow and t.chance(20):
+        children = children + [N('sp'), N('text', s=t.choice(['[9]', '[8 [7]]', '[]']))]     # balanced brackets inside the link text
     if not image and not c.canonical and not c.reflow and t.chance(24):
         # an image as (part of) the link text; links may not nest, images may
         children = children[:1] + [N('sp'), N('image', children=[gen_word(c)], dest=t.choice(['/img.png', 'i_j.png']), title='',
@@ -319,10 +322,16 @@ def gen_blocks(c, depth, n, in_item=False, in_quote=False, tight=False):
         elif k < 58:
             b = gen_fence(c)
         elif k < 62 and not in_item:
-            b = N('icode', lines=[t.choice([x for x in CODE_LINES if x.strip()]) for _ in range(1 + t.below(3))])
+            lines = [t.choice([x for x in CODE_LINES if x.strip()]) for _ in range(1 + t.below(3))]
+            if len(lines) >= 2 and not c.canonical and not c.reflow and t.chance(60):
+                # chunks separated by blank lines; whatever whitespace such a line has beyond the indentation is content
+                lines.insert(1, t.choice(['', '', '  ', '     ']))
+            b = N('icode', lines=lines)
         elif k < 73 and depth < 3:
             b = N('quote', children=gen_blocks(c, depth + 1, 1 + t.below(3), False, True) or [_filler()], markers=None,
                   lead_blank=0 if c.canonical else t.weighted([(8, 0), (1, 1), (1, 2)]))
+            if b.children[-1].kind == 'fence' and not c.canonical and not c.reflow and t.chance(80):
+                b.children[-1].a['unclosed'] = True        # the end of the quote closes it
         elif k < 88 and depth < 3:
             b = gen_list(c, depth, in_quote, nested=in_item)
         elif k < 94:
@@ -653,6 +662,8 @@ def place_definitions(c, top):
     def collect(children, loose_ok):
         if loose_ok:
             for i in range(len(children) + 1):
+                if i and children[i - 1].kind == 'fence' and children[i - 1].get('unclosed'):
+                    continue            # whatever follows an unclosed fence is its content
                 slots.append((children, i))
         for b in children:
             if b.kind == 'quote':
